@@ -329,6 +329,13 @@ theorem enter_after_close_ErrClosedPipe (cfg : Cfg) (s s' : State) (c : Nat) (hc
     · rw [if_neg hq]
       exact hx
 
+/-- **after_close_ErrClosedPipe** — over whole runs: a WriteMessages call invoked once the writer is marked closed
+(in particular after Close has returned) can only ever return io.ErrClosedPipe, in every reachable state. -/
+theorem after_close_ErrClosedPipe (cfg : Cfg) (s : State) (hr : Reachable cfg s) (x : Call) (hx : x ∈ s.calls)
+    (hb : x.bornClosed = true) (r : Res) (hp : x.phase = .returned r ∨ x.phase = .left r) : r = .closedPipe := by
+  have := (reachable_born cfg s hr).phase x hx hb
+  rcases this with h | h | h <;> rcases hp with h' | h' <;> rw [h] at h' <;> cases h' <;> rfl
+
 /-- a call blocked in its metadata lookup or waiting for its batches can return the context's error as soon as
 its context is cancelled -/
 theorem ctx_returns (cfg : Cfg) (s : State) (x : Call) (hx : x ∈ s.calls) (hc : x.cancelled = true) :
